@@ -30,7 +30,10 @@ def sched(sid: int) -> dict:
             "order_seed": core.grid("c06-order", sid), "sched": sid,
             # event names: letters, words, or names that are joins/prefixes
             # of each other (sid % 4 == 2)
-            "naming": sid % 4}
+            "naming": sid % 4,
+            # odd schedule ids: every inference is preceded, in the same
+            # process, by the inference of the counted variant of the family
+            "prelude": sid % 2 == 1}
 
 
 def main(argv=None):
@@ -52,6 +55,10 @@ def main(argv=None):
         else:
             rest.append(s)
     sids = (first + rest)[:nsched]
+    if len(sids) >= 2 and not any(s % 2 for s in sids):
+        sids[-1] = next(s for s in first + rest if s % 2)
+    if len(sids) >= 2 and all(s % 2 for s in sids):
+        sids[-1] = next(s for s in first + rest if not s % 2)
     units = []
     ntrees = {}
     for n in range(2, nmax + 1):
